@@ -2477,7 +2477,13 @@ impl<F: ConfigField + Default> ConfigField for Option<F> {
     }
 
     fn set(&mut self, key: &str, value: &str) -> Result<()> {
-        self.get_or_insert_with(Default::default).set(key, value)
+        // An unset option must stay unset when the value is rejected
+        let was_none = self.is_none();
+        let result = self.get_or_insert_with(Default::default).set(key, value);
+        if result.is_err() && was_none {
+            *self = None;
+        }
+        result
     }
 
     fn reset(&mut self, key: &str) -> Result<()> {
